@@ -668,6 +668,7 @@ def _per_name_rule(repo, rep):
               COMP + "_leave_assignment", "save and restore name the backup "
               "local by the same expression", construct="backup-same-name",
               detail=str(keys))
+    identifiers_safe(repo, rep)
     # freshness of the identity source
     okf, detail, f = names_object_fresh(repo)
     rep.check(okf, "R05.2", f.qualname,
@@ -676,6 +677,30 @@ def _per_name_rule(repo, rep):
               "its backup locals after the identity of each element's "
               "own names object", construct="fresh-names-object",
               where=L.where(f), detail=detail)
+
+
+def identifiers_safe(repo, rep, rule="R05.2"):
+    """a variable name may contain '-' (tal.NAME); whatever goes into the
+    name of a generated local has to be made identifier-safe"""
+    n, bad = L.unsafe_identifier_prefixes(repo)
+    if n < 10:
+        raise AnalysisError("only %d identifier() call sites found" % n)
+    seen = set()
+    for fn, call, why in bad:
+        if fn.qualname in seen:
+            continue
+        seen.add(fn.qualname)
+        rep.bad(rule, fn.qualname, "the prefix of a generated identifier is "
+                "identifier-safe: a constant, formatted with numbers only, "
+                "or mangled (a variable named 'my-item' must not yield "
+                "'__backup_my-item_...')",
+                construct="identifier-safe:" + fn.name, detail=why,
+                where=L.where(fn, call.lineno))
+    rep.check(not bad, rule, "chameleon.compiler.identifier",
+              "every generated identifier is a Python identifier whatever "
+              "the template's variable names are (%d call sites)" % n,
+              construct="identifier-safe", detail="; ".join(
+                  "%s: %s" % (f_.name, w_) for f_, _, w_ in bad[:4]))
 
 
 def names_object_fresh(repo):
